@@ -130,7 +130,7 @@ def parse(line):
     return d
 
 
-FAMILIES = ["3cnf", "mixed", "php", "chain", "dup", "long", "nextcheck", "deep", "hard"]
+FAMILIES = ["3cnf", "mixed", "php", "chain", "dup", "long", "nextcheck", "deep", "hard", "probe", "probe"]
 WEIGHTS = {
     "hard": dict(a=80, p=1, o=2, n=9, k=5, c=1, s=2),
     "3cnf": dict(a=55, p=4, o=12, n=8, k=9, c=3, s=4),
@@ -141,6 +141,8 @@ WEIGHTS = {
     "long": dict(a=60, p=3, o=12, n=8, k=10, c=3, s=4),
     "nextcheck": dict(a=32, p=2, o=6, n=30, k=28, c=1, s=1),
     "deep": dict(a=78, p=2, o=3, n=8, k=6, c=1, s=2),
+    # the probe theory of harness/h_sat.cpp: T = declare a theory clause (tc), X = raise a conflict from outside propagation (tx)
+    "probe": dict(a=50, p=3, o=10, n=6, k=8, c=2, s=2, T=9, X=10),
 }
 
 
@@ -166,9 +168,44 @@ def instance(rng, family):
     elif family == "hard":
         n = rng.randint(16, 40)
         clauses = fam_3cnf(rng, n)
+    elif family == "probe":
+        n = rng.randint(5, 12)
+        clauses = [rand_clause(rng, n, rng.choice([1, 2, 2, 3, 3])) for _ in range(rng.randint(n // 2, 2 * n))]
     else:
         clauses = fam_3cnf(rng, n) if rng.random() < 0.6 else fam_mixed(rng, n)
     return n, clauses
+
+
+def external_conflict(rng, st, k=None, all_root=False):
+    """A clause whose literals are all false now, for tx: its highest level is k levels below the current one (k = 0: a literal of
+    the current level; all_root: only level-0 literals - FALSE_lit and the negations of the root facts).  None if there is none."""
+    vals, lvl = st["vals"], int(st["lvl"])
+    lev = [int(x) for x in st["lev"].split(",")] if st.get("lev") else []
+    false_at = {}
+    for v in range(1, min(len(vals), len(lev))):
+        if vals[v] != "U":
+            false_at.setdefault(lev[v], []).append(L(v, vals[v] == "F"))
+    false_at.setdefault(0, []).append(1)        # FALSE_lit
+    if all_root:
+        h = 0
+    else:
+        if k is None:
+            k = rng.choice([0, 0, 1, 1, 2])
+        h = max(0, lvl - k)
+    top = false_at.get(h)
+    if not top:
+        return None
+    if h == 0 and len(top) > 1 and rng.random() < 0.8:
+        top = [l for l in top if l != 1]          # prefer a real root fact to the constant
+    cl = [rng.choice(top)]
+    lower = [l for hh, ls in false_at.items() if hh <= h for l in ls if l not in cl and l != 1]
+    for _ in range(rng.choice([0, 1, 1, 2])):
+        if lower:
+            x = rng.choice(lower)
+            lower.remove(x)
+            cl.append(x)
+    rng.shuffle(cl)
+    return cl
 
 
 def history(rng, drv, family=None, target_ops=None, unsteered=0.04):
@@ -193,7 +230,7 @@ def history(rng, drv, family=None, target_ops=None, unsteered=0.04):
         answers.append(a)
         st = parse(a)
         op = cmd[0]
-        if st.get("rc") == "0" and st.get("lvl") == "0" and op in "cpasn":
+        if st.get("rc") == "0" and st.get("lvl") == "0" and (op in "cpasn" or cmd.startswith("tx")):
             dead[0] = True
         return st
 
@@ -212,8 +249,14 @@ def history(rng, drv, family=None, target_ops=None, unsteered=0.04):
             st = do("p")
     if not dead[0] and rng.random() < 0.9:
         st = do("p")
-    ops = "apoknsc"
+    ops = "apoknsc" + ("TX" if family == "probe" else "")
     ww = [w[o] for o in ops]
+    if family == "probe":
+        target = target_ops or rng.randint(25, 120)
+        for _ in range(rng.randint(2, 7)):          # theory clauses known from the start
+            if not dead[0]:
+                st = do("tc %d %s" % (rng.choice([0, 1, 1, 1, 2]), " ".join(map(str, rand_clause(rng, n, rng.choice([2, 2, 3, 3, 4]))))))
+    end_all_root = family == "probe" and rng.random() < 0.5
     prev_rc0_check = False
     while len(lines) < target and not dead[0]:
         vals, lvl, q = st["vals"], int(st["lvl"]), int(st["q"])
@@ -231,7 +274,21 @@ def history(rng, drv, family=None, target_ops=None, unsteered=0.04):
                 o = rng.choice("ao") if free else "o"
             elif o == "n" and lvl == 0:
                 o = "a" if free else "k"
-        if o == "a":
+        if o == "T":
+            st = do("tc %d %s" % (rng.choice([0, 1, 1, 2]), " ".join(map(str, rand_clause(rng, len(vals) - 1, rng.choice([2, 2, 3, 4]))))))
+        elif o == "X":
+            if q > 0:
+                st = do("p")
+            else:
+                if end_all_root and lvl >= 1 and len(lines) > 0.6 * target:
+                    cl = external_conflict(rng, st, all_root=True)
+                else:
+                    cl = external_conflict(rng, st)
+                if cl and not (steer and cl == [1] and rng.random() < 0.8):
+                    st = do("tx " + " ".join(map(str, cl)))
+                else:
+                    st = do("p")
+        elif o == "a":
             v = rng.choice(free) if (steer and free) else rng.randint(1, len(vals) - 1)
             st = do("a %d" % L(v, rng.random() < 0.5))
         elif o == "k":
